@@ -11,9 +11,13 @@ func init() {
 	register(&Def{ID: "C13", Run: runC13, Replay: func(c *core.Check, v json.RawMessage) {
 		var k struct {
 			Template string `json:"template"`
+			Kind     string `json:"kind"`
+			Source   string `json:"source"`
 		}
 		json.Unmarshal(v, &k)
-		if k.Template != "" {
+		if k.Kind == "doc" {
+			c13.HandleDoc(c, k.Source)
+		} else if k.Template != "" {
 			replayRaw(c, v, c13.HandleTemplate)
 		} else {
 			replayRaw(c, v, c13.Handle)
@@ -32,6 +36,9 @@ func runC13(c *core.Check) {
 	r := core.TLCRun{Module: "MC_C13", Consts: map[string]string{"MaxN": n}, Timeout: minutes(30)}
 	r.ConstSubst = map[string]string{"Alphabet": "Full"}
 	streamTLC(c, r, func(st core.State) { c13.Handle(c, st) })
+	for _, doc := range c13.FixedDocs() {
+		c13.HandleDoc(c, doc)
+	}
 	e1c := map[string]string{"MaxD": "1", "Level2": "\"core\""}
 	if c.Tier == "thorough" {
 		e1c = map[string]string{"MaxD": "2", "Level2": "\"core\""}
